@@ -48,6 +48,8 @@ let dispatch (op : string) (x : v) : v =
   | "get_av", [tab; vv; ts] ->
       let tab = to_list to_pt tab and vv = to_q vv in
       of_list (fun t -> of_q (M.get_av_m tab vv (to_q t))) (match ts with L l -> l | _ -> raise (Bad "list"))
+  | "ndist", [l; step] -> of_z (M.ndist (to_q l) (to_q step))
+  | "gridlog", [lo; hi; n] -> of_list of_q (M.gridlog_m (to_q lo) (to_q hi) (to_nat n))
   | "rank", [chi] -> of_list of_nat (M.rank_m (to_list to_xnum chi))
   | "interp_clamp", [tab; rs] ->
       let tab = to_list to_pt tab in
